@@ -26,18 +26,19 @@ CONSTANTS NMsgs,        \* the producers queue the messages 1..NMsgs, in this or
 Msgs == [i \in 1..NMsgs |-> i]
 
 VARIABLES proto, ptr, open, nconn,
-          queue, nextmsg,           \* job deque; index of the next message a producer appends
+          queue, nextmsg,           \* job deque; nextmsg = 1 + number of messages appended so far
+          produced,                 \* history: the messages in the order the producers appended them
           spc, sst, smsg,           \* pump/sender: pc, snapshot of the connection, message in hand
           lpc, lconn,               \* reader thread (connection lost)
           upc, ust,                 \* user disconnect
           kpend, kpc, kconn,        \* connect thread(s): pending reconnect requests
           written, raised, cbLost, cbMade, reconnects, dropped
-vars == <<proto, ptr, open, nconn, queue, nextmsg, spc, sst, smsg, lpc, lconn, upc, ust, kpend, kpc, kconn,
+vars == <<proto, ptr, open, nconn, queue, nextmsg, produced, spc, sst, smsg, lpc, lconn, upc, ust, kpend, kpc, kconn,
           written, raised, cbLost, cbMade, reconnects, dropped>>
 
 Init ==
   /\ proto = TRUE /\ ptr = 1 /\ open = [c \in 1..MaxConn |-> c = 1] /\ nconn = 1
-  /\ queue = <<>> /\ nextmsg = 1
+  /\ queue = <<>> /\ nextmsg = 1 /\ produced = <<>>
   /\ spc = "idle" /\ sst = 0 /\ smsg = 0
   /\ lpc = (IF WithLost THEN "l0" ELSE "done") /\ lconn = 0
   /\ upc = (IF WithUser THEN "u0" ELSE "done") /\ ust = 0
@@ -45,14 +46,18 @@ Init ==
   /\ written = <<>> /\ raised = {} /\ cbLost = 0 /\ cbMade = 1 /\ reconnects = 0 /\ dropped = <<>>
 
 \* ---- producers and pump (thread-safe deque: append and popleft are atomic) ----
-Produce == /\ nextmsg <= Len(Msgs) /\ queue' = Append(queue, Msgs[nextmsg]) /\ nextmsg' = nextmsg + 1
+\* several producer threads: the messages 1..NMsgs are appended in any order, each once
+Produce == /\ nextmsg <= NMsgs
+           /\ \E m \in (1..NMsgs) \ {produced[i] : i \in 1..Len(produced)} :
+                 queue' = Append(queue, m) /\ produced' = Append(produced, m)
+           /\ nextmsg' = nextmsg + 1
            /\ UNCHANGED <<proto, ptr, open, nconn, spc, sst, smsg, lpc, lconn, upc, ust, kpend, kpc, kconn,
                           written, raised, cbLost, cbMade, reconnects, dropped>>
 Pop ==     /\ spc = "idle" /\ queue # <<>> /\ smsg' = Head(queue) /\ queue' = Tail(queue) /\ spc' = "lock"
-           /\ UNCHANGED <<proto, ptr, open, nconn, nextmsg, sst, lpc, lconn, upc, ust, kpend, kpc, kconn,
+           /\ UNCHANGED <<proto, ptr, open, nconn, nextmsg, produced, sst, lpc, lconn, upc, ust, kpend, kpc, kconn,
                           written, raised, cbLost, cbMade, reconnects, dropped>>
 \* ---- Transport.send ------------------------------------------------------------
-SU == <<nconn, queue, nextmsg, smsg, lpc, lconn, upc, ust, kpc, kconn, cbLost, cbMade>>
+SU == <<nconn, queue, nextmsg, produced, smsg, lpc, lconn, upc, ust, kpc, kconn, cbLost, cbMade>>
 SCheck ==  \* "if not message or not self.protocol or not self.protocol.transport: return"
   /\ spc = "lock"
   /\ IF proto /\ ptr # 0
@@ -77,7 +82,7 @@ SErrReconnect ==
   /\ spc = "ereconn" /\ kpend' = kpend + 1 /\ reconnects' = reconnects + 1 /\ spc' = "idle"
   /\ UNCHANGED <<proto, ptr, open, sst, written, raised, dropped>> /\ UNCHANGED SU
 \* ---- reader thread: connection_lost(exc) -----------------------------------------
-LU == <<proto, nconn, queue, nextmsg, spc, sst, smsg, upc, ust, kpc, kconn, written, raised, cbMade, dropped>>
+LU == <<proto, nconn, queue, nextmsg, produced, spc, sst, smsg, upc, ust, kpc, kconn, written, raised, cbMade, dropped>>
 L0 == /\ lpc = "l0" /\ lconn' = ptr
       /\ open' = IF LostExc /\ ptr # 0 THEN [open EXCEPT ![ptr] = FALSE] ELSE open      \* "if exc: self.transport.serial.close()"
       /\ lpc' = "l1" /\ UNCHANGED <<ptr, kpend, cbLost, reconnects>> /\ UNCHANGED LU
@@ -92,7 +97,7 @@ L3 == /\ lpc = "l3" /\ ptr' = 0                                                 
       /\ lpc' = IF ClearFirst THEN "l2" ELSE "done"
       /\ UNCHANGED <<open, lconn, kpend, cbLost, reconnects>> /\ UNCHANGED LU
 \* ---- user: Transport.disconnect() ---------------------------------------------------
-UU == <<nconn, queue, nextmsg, spc, sst, smsg, lpc, lconn, kpend, kpc, kconn, written, cbLost, cbMade, reconnects, dropped>>
+UU == <<nconn, queue, nextmsg, produced, spc, sst, smsg, lpc, lconn, kpend, kpc, kconn, written, cbLost, cbMade, reconnects, dropped>>
 U0 == /\ upc = "u0" /\ ust' = (IF proto THEN ptr ELSE 0) /\ upc' = "u0b"       \* reads protocol and protocol.transport
       /\ UNCHANGED <<proto, ptr, open, raised>> /\ UNCHANGED UU
 U0b == /\ upc = "u0b"
@@ -106,7 +111,7 @@ U1 == /\ upc = "u1"                                                             
 U2 == /\ upc = "u2" /\ proto' = FALSE /\ upc' = "done"
       /\ UNCHANGED <<ptr, open, ust, raised>> /\ UNCHANGED UU
 \* ---- connect thread ------------------------------------------------------------------
-KU == <<queue, nextmsg, spc, sst, smsg, lpc, lconn, upc, ust, written, raised, cbLost, reconnects, dropped>>
+KU == <<queue, nextmsg, produced, spc, sst, smsg, lpc, lconn, upc, ust, written, raised, cbLost, reconnects, dropped>>
 K0 == /\ WithConnector /\ kpc = "idle" /\ kpend > 0 /\ nconn < MaxConn
       /\ IF proto THEN /\ nconn' = nconn + 1 /\ kconn' = nconn + 1 /\ open' = [open EXCEPT ![nconn + 1] = TRUE] /\ kpc' = "k1"
                   ELSE /\ UNCHANGED <<nconn, kconn, open>> /\ kpc' = "idle"           \* "while transport.protocol" is false
@@ -127,9 +132,9 @@ NoExceptionIntoUser == "AttributeError in disconnect" \notin raised
 SentMsgs == [i \in 1..Len(written) |-> written[i][2]]
 AtMostOnce == \A i, j \in 1..Len(written) : i # j => written[i][2] # written[j][2]
 \* every message that left the queue was either written once or dropped, never both, and in queue order
-IsSubseqOfMsgs(s) == \E f \in [1..Len(s) -> 1..Len(Msgs)] :
-                        (\A i \in 1..Len(s) : Msgs[f[i]] = s[i]) /\ (\A i, j \in 1..Len(s) : i < j => f[i] < f[j])
-QueueOrder == IsSubseqOfMsgs(SentMsgs)
+IsSubseqOf(s, t) == \E f \in [1..Len(s) -> 1..Len(t)] :
+                        (\A i \in 1..Len(s) : t[f[i]] = s[i]) /\ (\A i, j \in 1..Len(s) : i < j => f[i] < f[j])
+QueueOrder == IsSubseqOf(SentMsgs, produced)
 ExactlyOnceOrDropped ==
   (spc = "idle" /\ queue = <<>> /\ nextmsg > Len(Msgs)) =>
      /\ Len(written) + Len(dropped) = Len(Msgs)
